@@ -10,21 +10,21 @@ CLAIMED = {
     "C01": dict(
         cat="exploration",
         ref="DESIGN.md 4/C01",
-        technique="deterministic simulation: seeded histories of public mutators entered from the vertex, link and builder side, with failing-call faults, user overrides that re-enter the protocol or raise after recording, the warnings-as-errors setting, value-equal and falsy vertex classes, in-process pickle round trips; symmetry/duplicate invariant after every step; minimised op-list replay",
+        technique="deterministic simulation: seeded histories of public mutators entered from the vertex, link and builder side, with failing-call faults, user overrides that re-enter the protocol or raise after recording, the warnings-as-errors setting, value-equal and falsy vertex classes, in-process pickle round trips; symmetry/duplicate invariant after every step; minimised op-list replay; the process-wide caching flag flipped at seeded points of a share of the histories",
         text="Seeded search over call histories (aliasing-biased arguments, calls that raise part-way) with the symmetric / duplicate-free invariant evaluated after every step. Sampling, not proof: right level because the property quantifies over unboundedly many histories of a re-entrant two-party protocol.",
-        note="Trusts: CPython, the label/snapshot walk over public accessors (links, vertices). Assumes single-threaded use and caching off.",
+        note="Trusts: CPython, the label/snapshot walk over public accessors (links, vertices). Assumes single-threaded use; the caching flag is a seam (flipped in a share of the histories), the invariant must hold either way.",
     ),
     "C02": dict(
         cat="exploration",
         ref="DESIGN.md 4/C02",
-        technique="deterministic simulation: seeded membership histories from both sides over nested universes, iterator/generator arguments, re-entrant / raising / re-admitting subclass overrides, universes with thousands of members, in-process pickle round trips, the warnings-as-errors setting, failing-call (non-member removal) atomicity, list reference model after every step",
+        technique="deterministic simulation: seeded membership histories from both sides over nested universes, iterator/generator arguments, re-entrant / raising / re-admitting subclass overrides, universes with thousands of members, in-process pickle round trips, the warnings-as-errors setting, failing-call (non-member removal) atomicity, list reference model after every step; mass departures from universes with dozens to hundreds of members; the caching flag flipped at seeded points",
         text="Seeded histories of the four membership calls and two constructors against an insertion-ordered list model; removal of a non-member must raise and leave the snapshot untouched.",
         note="Trusts the reference model in egsim/model.py (40 lines for these calls). Any exception class counts as 'raises'.",
     ),
     "C03": dict(
         cat="exploration",
         ref="DESIGN.md 4/C03",
-        technique="deterministic simulation: refinement of an executable reference model over seeded histories, whole-world equality and return values after every step",
+        technique="deterministic simulation: refinement of an executable reference model over seeded histories, whole-world equality and return values after every step; the caching flag flipped at seeded points of a share of the histories",
         text="Operation-by-operation refinement check of the whole observable graph against a plain-data model; failing constructor calls must be atomic.",
         note="Trusts the reference model; two narrow relaxations listed in DESIGN 6.5 (edge position when already listed, which joining link dontdup returns).",
     ),
@@ -45,28 +45,28 @@ CLAIMED = {
     "C10": dict(
         cat="exploration",
         ref="DESIGN.md 4/C10",
-        technique="deterministic simulation of a crash/restart boundary: a world grown by a seeded history (or a deep shape many times the recursion limit, dumped under a measured lowered limit) is serialised with nrpickler, loaded in the same process or a fresh interpreter (zygote fork / exec), and original and copy are driven by the same continuation history (opening with mutation-then-same-read on warm memos); canonical snapshots (including sharing of containers and look-ups in hash containers) and every outcome compared",
+        technique="deterministic simulation of a crash/restart boundary: a world grown by a seeded history (or a deep shape many times the recursion limit, dumped under a measured lowered limit) is serialised with nrpickler, loaded in the same process or a fresh interpreter (zygote fork / exec), and original and copy are driven by the same continuation history (opening with mutation-then-same-read on warm memos); canonical snapshots (including sharing of containers and look-ups in hash containers) and every outcome compared; worlds include vertex classes that cannot be found by name (the pickle carries the class: plain, zero-argument super(), ABC metaclass) and attribute values that are functions of the running script; dumps of small worlds run under a 10 s watchdog (a dump that does not return is a violation with a replayable history)",
         text="Seeded search over graph shapes, roots, protocols 0-5, dumps/dump, pickle/dill, same-process vs fresh-process loading, flag on/off on either side and a resource knob (recursion limit near a measured floor); durability oracle = isomorphism incl. sharing + differential usability of the copy.",
         note="Classes of pickled objects are importable on the far side. Recursion floor measured per process on the same shape with 6 vertices. Zygote forks stand in for fresh interpreters for volume; a share are real exec.",
     ),
     "C11": dict(
         cat="exploration",
         ref="DESIGN.md 4/C11 (borderline, see there)",
-        technique="deterministic simulation: adjacency builders issued as mutators inside seeded histories on vertices with prior links/universes; reference model after every step; ill-shaped input as failing calls that must raise ValueError atomically; read-back through neighbors()/find_links forwards and backwards, with caching off and on",
+        technique="deterministic simulation: adjacency builders issued as mutators inside seeded histories on vertices with prior links/universes; reference model after every step; ill-shaped input as failing calls that must raise ValueError atomically; read-back through neighbors()/find_links forwards and backwards, with caching off and on; the caching flag flipped at seeded points of a share of the histories",
         text="Refinement against the reference model of the builders' effect and frame over histories, atomic rejection of bad input, read-back when the named vertices were fresh.",
         note="Claimed for its frame and atomic-rejection clauses; the input->graph core is covered by the same model comparison.",
     ),
     "C12": dict(
         cat="exploration",
         ref="DESIGN.md 4/C12",
-        technique="deterministic simulation with fault injection: a misbehaving client scribbles on exchanged containers (returned and handed-in) at seeded points of a twin-world history, cache off/on/toggling, in-process pickle round trips of both worlds, suspended generator traversals; extended snapshots and all later reads compared with the unscribbled uncached twin",
+        technique="deterministic simulation with fault injection: a misbehaving client scribbles on exchanged containers (returned and handed-in) at seeded points of a twin-world history, cache off/on/toggling, in-process pickle round trips of both worlds, suspended generator traversals; extended snapshots and all later reads compared with the unscribbled uncached twin; reflected == / | operands that write into the mapping a read-only proxy wraps",
         text="Injected corruption of every exchanged container kind (list/set/dict mutations, inner level too) followed by continued operation; immutable containers must refuse.",
         note="'Copied' concerns the collection passed, not objects stored in it. Reference = the twin that never meets the misbehaving client.",
     ),
     "C13": dict(
         cat="fault_enumeration",
         ref="DESIGN.md 4/C13",
-        technique="deterministic simulation with fault injection: for sampled (world, entry point, settings, cache flag) triples, an exception is injected at the k-th invocation of every user callback for every k (InjectedFault everywhere, StopIteration / AttributeError / KeyError / TypeError at the edges), re-entrant callbacks; deep snapshot (structure, attribute-name sets, public values) before/after, clean re-run compared with the fault-free result",
+        technique="deterministic simulation with fault injection: for sampled (world, entry point, settings, cache flag) triples, an exception is injected at the k-th invocation of every user callback for every k (InjectedFault everywhere, StopIteration / AttributeError / KeyError / TypeError at the edges), re-entrant callbacks; deep snapshot (structure, attribute-name sets, public values) before/after, clean re-run compared with the fault-free result; lazy traversals advanced one element at a time with the deep snapshot compared between steps and after abandoning them half-way",
         text="Exhaustive enumeration of callback fault positions within each sampled triple (all k while N<=32), crash-consistency oracle: however the call ends, the graph is as before and a clean re-run gives the normal answer.",
         note="Faults are exceptions from user callbacks only. Private attribute values are not compared, names are. Triples are sampled; fault positions within them are enumerated.",
     ),
@@ -80,14 +80,14 @@ CLAIMED = {
     "C18": dict(
         cat="exploration",
         ref="DESIGN.md 4/C18",
-        technique="deterministic simulation: seeded histories of constructions and targeted/global clears over a class, two subclass levels, falsy-instance classes, a derived metaclass, classes defined in mid-history and an unrelated class sharing one process-global table; fault injection (__init__ raising, warnings as errors), re-entrant clears/constructions from inside __init__, runs that hold no references; cls->instance model, all live classes re-checked after every step",
+        technique="deterministic simulation: seeded histories of constructions and targeted/global clears over a class, two subclass levels, falsy-instance classes, a derived metaclass, classes defined in mid-history and an unrelated class sharing one process-global table; fault injection (__init__ raising, warnings as errors), re-entrant clears/constructions from inside __init__, runs that hold no references; cls->instance model, all live classes re-checked after every step; classes with an ordinary restrictive __init__ signature (non-fitting calls while an instance is on file and while none is), user code inside a constructor that then fails",
         text="Seeded interleavings of constructions (arbitrary arguments) and clears; identity, __init__ count and first-call arguments checked against the model after every step.",
         note="The global table is emptied through the public clear at run start; classes are fresh per run.",
     ),
     "C20": dict(
         cat="exploration",
         ref="DESIGN.md 4/C20",
-        technique="deterministic simulation: the random module as a nondeterminism seam - reseeded, continued and adversarially biased generator states; process-wide settings flipped for single calls (warnings as errors, debug logging), re-entrant and falsy-instance edge classes; structural oracle, same-state reproducibility and a non-termination watchdog on every call",
+        technique="deterministic simulation: the random module as a nondeterminism seam - reseeded, continued and adversarially biased generator states; process-wide settings flipped for single calls (warnings as errors, debug logging), re-entrant and falsy-instance edge classes; structural oracle, same-state reproducibility and a non-termination watchdog on every call; neighbor caching switched on for the duration of a share of the calls; an edge type whose constructor reads the i of both ends",
         text="Seeded search over (count, edge type, connectivity, ensurelink) x generator states, including draws forced to the ends of their range; each call repeated from the same state must rebuild the same graph.",
         note="Biased draws patch random.randint/random.sample during the call only; each returned value is one the real generator can produce.",
     ),
